@@ -20,7 +20,7 @@ ASSUMPTIONS = ["failpoints raise a RuntimeError subclass at the entry of a layer
                "sites at or below the transport cipher in the byte stream (network, segments in both directions, noise on receive) lose bytes of an ordered encrypted stream when they fail: "
                "for them same-connection follow-ups are only required not to block, and everything is required to work after a reconnect",
                "after-failure follow-ups run in helper threads so that a wedged stack is observed as a blocked thread instead of hanging the check"]
-REQUIRED = ["keyreq_followup_ok", "keyfetch_failure_cases", "keyfetch_failure_ok", "keyfetch_failure:no-keys-answer", "keyfetch_failure:send-raises", "keyfetch_failures_injected", "placed_followup_phases", "placed_followups_ok", "placed_round:me/send", "placed_round:me/recv", "placed_round:fresh/send", "placed_round:fresh/recv", "placed_round:fresh-any/send", "concurrent_followup_phases", "concurrent_followups_ok", "real_upward_failure_cases", "real_upward_failure_ok", "real_write_error_cases", "real_write_error_ok", "real_write_error:socket", "real_write_error:asyncore", "cases", "failpoints_reached", "natural_failures", "locks_censused", "followups_ok", "reconnect_followups_ok",
+REQUIRED = ["real_upward_tidy_disconnects", "keyreq_followup_ok", "keyfetch_failure_cases", "keyfetch_failure_ok", "keyfetch_failure:no-keys-answer", "keyfetch_failure:send-raises", "keyfetch_failures_injected", "placed_followup_phases", "placed_followups_ok", "placed_round:me/send", "placed_round:me/recv", "placed_round:fresh/send", "placed_round:fresh/recv", "placed_round:fresh-any/send", "concurrent_followup_phases", "concurrent_followups_ok", "real_upward_failure_cases", "real_upward_failure_ok", "real_write_error_cases", "real_write_error_ok", "real_write_error:socket", "real_write_error:asyncore", "cases", "failpoints_reached", "natural_failures", "locks_censused", "followups_ok", "reconnect_followups_ok",
             "sites", "other_thread_followups"]
 TIMEOUT = {"quick": 600, "thorough": 7200}
 
@@ -785,6 +785,7 @@ def real_upward_failure_case(acc, seed, tag, dispatcher_name):
     from yowsup.layers.network import YowNetworkLayer
     from yowsup.layers.auth import YowAuthenticationProtocolLayer
     from yowsup.layers.protocol_iq.protocolentities import PingIqProtocolEntity
+    r = gen.rng(seed, ID, tag)
     disp = YowNetworkLayer.DISPATCHER_SOCKET if dispatcher_name == "socket" else YowNetworkLayer.DISPATCHER_ASYNCORE
     srv = realnet.LoopServer()
     srv.start()
@@ -843,6 +844,15 @@ def real_upward_failure_case(acc, seed, tag, dispatcher_name):
         # that ran the failed connection is held at its next line
         if not c.wait(lambda: c.probe_top.event_names().count(D) >= 1, 5):
             return bad("no-disconnected-at-top", "the down announcement never reached the application")
+        if r.random() < 0.5:
+            # the application tidies up first: it asks for a disconnect although the connection is gone already
+            w["tidy_disconnect"] = True
+            acc.count("real_upward_tidy_disconnects")
+            try:
+                c.app.disconnect()
+            except Exception as e:  # noqa
+                return bad("tidy-disconnect-raises:%s" % type(e).__name__, "disconnect() on a connection that is already down raised %r" % (e,))
+            time.sleep(0.02)
         c.connect_async()
         if mid:
             c.wait(lambda: c.net.state != YowNetworkLayer.STATE_DISCONNECTED, 2)
@@ -854,7 +864,9 @@ def real_upward_failure_case(acc, seed, tag, dispatcher_name):
         time.sleep(0.3)
         if not c.net.getStatus():
             return bad("new-connection-marked-down", "the new connection is alive at the server but the network layer reports it down (disconnected announced %d times)" % c.events(D))
-        if c.events(D) != 1:
+        # (a disconnect request made while no connection is up lies outside the histories the connection-lifecycle property
+        # quantifies over; the pinned asyncore path announces 'disconnected' once more for it, which is not judged here)
+        if c.events(D) != 1 and not (w.get("tidy_disconnect") and c.events(D) == 2):
             return bad("disconnected-count", "one connection went down, 'disconnected' was announced %d times" % c.events(D))
         n0 = len(srv.conns[-1].stanzas)
         c.app.toLower(PingIqProtocolEntity())
